@@ -68,6 +68,12 @@ pub fn build(rng: &mut Rng, i: usize) -> PDB {
             }
         }
     }
+    // model serial numbers of one to four digits
+    let first = *rng.pick(&[0usize, 1, 1, 7, 9, 10, 98, 999, 4242, 9997]);
+    let single = pdb.model_count() == 1;
+    for (k, m) in pdb.models_mut().enumerate() {
+        m.set_serial_number(if single && first % 2 == 0 { 0 } else { first + k });
+    }
     let per_model = pdb.model(0).map_or(1, Model::atom_count).max(1);
     let seed = rng.next();
     let mut k = 0usize;
